@@ -58,6 +58,10 @@ def run(chk):
             if case.get("caller") is not None and rng.chance(1, 6):
                 # an attributed connection, then a DIRECT connection to the listener from the same source port: the second one
                 # has no attribution record of its own (C07 makes the first record single-use) and must be refused
+                if rng.chance(1, 3):
+                    # ... also when the first connection's host could not be reached (its record is used up all the same)
+                    case["dest"], case["label"] = (e2e.OTHER[0], 81), "other"
+                    chk.count("attributed_connection_to_unreachable_host")
                 o1 = runner.run_case(case, keep_conn=True)
                 port = o1["conn"].port
                 o1["conn"].close(rst=True)
@@ -94,6 +98,11 @@ def run(chk):
                     conn.close()
                 continue
             runner.run_case(case)
+        # one kept-alive connection asking for the same path with different query strings (the rules tell them apart), and the rules
+        # replaced between two identical requests: every request is judged on its own, under the rules in force when it arrives
+        for sess in pipegen.query_rule_sessions(callers):
+            done = runner.run_session(sess, chk.count)
+            chk.count("same_path_other_query_requests", len(done))
         runner.finish(oracle)
         if stack.panics():
             chk.notes.append("panics observed: " + "; ".join(stack.panics()[:3]))
